@@ -405,6 +405,9 @@ func condHolds(f *ir.Func, b *ssa.BasicBlock, cond string) (bool, string) {
 		return false, strings.Join(seen, " ∧ ")
 	}
 	for _, d := range guardDisjuncts(f, b, 0) {
+		if contradictory(d) {
+			continue // infeasible path
+		}
 		found := false
 		var ds []string
 		for _, cd := range d {
@@ -624,8 +627,8 @@ func (c *Ctx) OnlyWhenReturn(fnSpec, valPat, cond, desc string) {
 			continue
 		}
 		n++
-		if found, _ := condHolds(f, b, cond); !found {
-			c.add("P", fnSpec, role, desc, report.Violated, "return of "+valPat+" not under condition "+cond, c.posOf(ret))
+		if found, seen := condHolds(f, b, cond); !found {
+			c.add("P", fnSpec, role, desc, report.Violated, "return of "+valPat+" not under condition "+cond+"; in force: "+short(seen), c.posOf(ret))
 			return
 		}
 	}
@@ -1255,4 +1258,29 @@ func (c *Ctx) ApplyFuncClosures(pkgRel string, min int, desc string) {
 	if n < min {
 		c.add("X-cache", pkgRel, "closures", desc, report.Violated, fmt.Sprintf("only %d cache-context closures found, expected at least %d", n, min), "")
 	}
+}
+
+// contradictory: the conjunction contains a condition and its negation.
+func contradictory(d []Cond) bool {
+	neg := func(c Cond) string {
+		switch c.Op {
+		case "lt":
+			return Cond{Op: "le", A: c.B, B: c.A, Pol: true}.String()
+		case "le":
+			return Cond{Op: "lt", A: c.B, B: c.A, Pol: true}.String()
+		}
+		n := c
+		n.Pol = !c.Pol
+		return n.String()
+	}
+	have := map[string]bool{}
+	for _, c := range d {
+		have[c.String()] = true
+	}
+	for _, c := range d {
+		if have[neg(c)] {
+			return true
+		}
+	}
+	return false
 }
